@@ -143,7 +143,13 @@ def check(run):
     ic_calls = [c for c in ac.calls() if (q.callee_name(c) or '').endswith('io_context::internal_connect')]
     if not ic_calls:
         run.broke('async_connect no longer calls internal_connect')
-    flows = [f for f in handlers.flows_in(fx, ac) if f.entity.startswith('param:h') and f.kind == 'move']
+    allf = handlers.flows_in(fx, ac)
+    flows = [f for f in allf if f.entity.startswith('param:h') and f.kind == 'move']
+    # the handler may be parked in the slot BEFORE internal_connect (a SYN-ACK can come back inside that call on a route without
+    # queues) and be taken out of the slot again on the error path: flows out of the slot count as flows of the handler
+    parked_first = [f for f in flows if (f.dest or '').startswith('slot:') and ic_calls and all(q.precedes(ac, f.site, c) for c in ic_calls)]
+    if parked_first:
+        flows = flows + [f for f in allf if f.entity == 'field:' + T + '::m_connect_handler' and f.kind in ('move', 'exchange')]
     after = [f for f in flows if ic_calls and q.any_precedes(ac, ic_calls, f.site)]
     err = [f for f in after if any(q.render(ac, a) == 'ec' and p for a, p in q.guards_at(ac, f.site))]
     run.check(bool(err) and all(f.dest == 'timer' for f in err), 'R4', 'refusal-delayed', T + '::async_connect', ac.loc(),
@@ -163,8 +169,16 @@ def check(run):
         txt = p04.closure_text(fx, ac, f)       # bind arguments, or the captures and body of a lambda
         run.check(bool(_re.search(r'\bec\b', txt.split('(', 1)[1] if '(' in txt else txt)), 'R4', 'refusal-error-bound', T + '::async_connect', ac.loc(f.node), 'refusal completion does not bind the error from internal_connect', 'binds ec')
     ok_slot = [f for f in after if (f.dest or '').startswith('slot:')]
-    run.check(bool(ok_slot) and all(any(q.render(ac, a) == 'ec' and not p for a, p in q.guards_at(ac, f.site)) for f in ok_slot), 'R4', 'success-parks-handler', T + '::async_connect', ac.loc(),
-              'the connect handler is parked in m_connect_handler on a path where ec may be set', 'handler parked only when internal_connect succeeded')
+    if parked_first:
+        # parked before the call: on the error path the slot must have been emptied again (moved into the refusal completion)
+        sf_ = handlers.SlotFlow(fx, T + '::m_connect_handler', {T})
+        out_err = [f for f in err if f.entity.startswith('field:')]
+        run.check(bool(out_err) and not ok_slot, 'R4', 'success-parks-handler', T + '::async_connect', ac.loc(),
+                  'the handler is parked in m_connect_handler before internal_connect but is not taken out of the slot again on the error path: a refused connect leaves a handler parked that a later SYN-ACK or cancel() would complete a second time',
+                  'parked before internal_connect; moved out of the slot into the refusal completion when it failed')
+    else:
+        run.check(bool(ok_slot) and all(any(q.render(ac, a) == 'ec' and not p for a, p in q.guards_at(ac, f.site)) for f in ok_slot), 'R4', 'success-parks-handler', T + '::async_connect', ac.loc(),
+                  'the connect handler is parked in m_connect_handler on a path where ec may be set', 'handler parked only when internal_connect succeeded')
 
     run.clause('refuse unless listening: a channel is created only after the registry lookup succeeded and internal_is_listening() returned true; failing edges assign connection_refused')
     ic = fx.fn1(S + '::internal_connect')
@@ -253,16 +267,23 @@ def check(run):
     comp = [f_ for f_ in handlers.flows_in(fx, ipk) if f_.entity == 'field:' + T + '::m_connect_handler' and (f_.dest == 'post' or f_.kind in ('move', 'exchange', 'invoke'))]
     if not comp:
         run.broke('tcp::socket::incoming_packet no longer completes m_connect_handler (anchor vanished)')
+    def _foreign(atom):
+        # abstract state: the socket has a channel and the packet belongs to a different one
+        a_ = q.strip_casts(atom)
+        t_ = q.render(ipk, a_).replace('this->', '')
+        if t_ == 'm_channel':
+            return True
+        if t_ == 'm_connect_handler':
+            return True
+        ca = q.cmp_atom(a_)
+        if ca and {q.render(ipk, ca[1]).replace('this->', ''), q.render(ipk, ca[2]).replace('this->', '')} == {'p.channel', 'm_channel'}:
+            return {'==': False, '!=': True}.get(ca[0])
+        if ca and q.render(ipk, ca[1]).replace('this->', '') == 'p.type':
+            return 'syn_ack' in q.render(ipk, ca[2]) if ca[0] == '==' else None
+        return None
     for f_ in comp:
-        okc = False
-        for a_, p_ in q.guards_at(ipk, f_.site):
-            ca = q.cmp_atom(a_)
-            if not ca:
-                continue
-            op_ = ca[0] if p_ else q.NEG[ca[0]]
-            ts = {q.render(ipk, ca[1]).replace('this->', ''), q.render(ipk, ca[2]).replace('this->', '')}
-            if op_ == '==' and ts == {'p.channel', 'm_channel'}:
-                okc = True
+        # with a channel attached and a SYN-ACK of another channel arriving, the completion must be unreachable
+        okc = not q.reachable_under(ipk, None, [f_.site], _foreign)
         run.check(okc, 'R5', 'synack-for-this-connect', T + '::incoming_packet:syn_ack', ipk.loc(f_.site),
                   'the connect is completed by ANY SYN-ACK that reaches the socket (no dominating p.channel == m_channel test): the SYN-ACK of an earlier, cancelled connect completes a later connect to a different acceptor with success - a connect succeeds with no accept on the acceptor it dialled, and the two connections are crossed',
                   'completed only when p.channel == m_channel')
